@@ -3,6 +3,7 @@ package c14
 
 import (
 	"fmt"
+	"math"
 	"runtime"
 	"strings"
 	"sync"
@@ -80,6 +81,24 @@ func run(c Case) (pbt.Outcome, error) {
 	gau := r.AllocateGauge("g", nil)
 	tim := r.AllocateTimer("t", nil)
 	hb := r.AllocateHistogram("h", nil, tally.ValueBuckets{1, 2}).ValueBucket(1, 2)
+	// bucket handles a histogram does not have - the other kind, bounds that are not its own, on a
+	// histogram without buckets - are usable no-ops: asking for them and reporting on them never panics
+	var strays []tally.CachedHistogramBucket
+	func() {
+		defer func() {
+			if p := recover(); p != nil {
+				errs.Addf("asking a histogram for a bucket handle it does not have panicked: %v", p)
+			}
+		}()
+		hv := r.AllocateHistogram("h", nil, tally.ValueBuckets{1, 2})
+		hd := r.AllocateHistogram("hd", nil, tally.DurationBuckets{time.Millisecond})
+		he := r.AllocateHistogram("he", nil, tally.ValueBuckets{})
+		strays = append(strays, hv.DurationBucket(time.Millisecond, time.Second), hv.ValueBucket(5, 6), hv.ValueBucket(0, math.Inf(1)), hv.ValueBucket(math.NaN(), math.NaN()),
+			hd.ValueBucket(1, 2), hd.DurationBucket(time.Hour, 2*time.Hour), he.DurationBucket(0, time.Second), he.ValueBucket(1, 2))
+		for _, b := range strays {
+			b.ReportSamples(1)
+		}
+	}()
 
 	s := sched.New(c.Sched)
 	s.Tau = 5 * time.Millisecond
